@@ -23,7 +23,18 @@ class CancelOutput(Monitor):
     def on_init(self, run):
         self.stats = dict(outputs_checked=0, vars_checked=0, cancel_with_inflight=0, cancel_dormant=0)
 
+    def on_offer(self, run, ev, info, action, rec):
+        led = getattr(run, "ledger", None)
+        if led is not None and led.enabled and not led.stopped:
+            e = led.open.get((info["task"], info["route"]))
+            if e is not None:
+                self.execs = getattr(self, "execs", {})
+                self.execs[(info["task"], info["route"])] = e
+
     def on_call(self, run, ev):
+        if ev["op"] == "done" and ev["exc"] is None and ev["pre"]["status"] == "canceling" and ev["post"]["status"] == "canceled":
+            a = ev.get("action") or {}
+            self.closing = (a.get("task"), a.get("route"))  # the report that brought the workflow to rest
         if ev["op"] == "req" and ev["exc"] is None and ev["args"][0] in ("canceling", "canceled") \
                 and ev["pre"]["status"] not in ("canceling", "canceled"):
             if run.inflight:
@@ -87,6 +98,27 @@ class CancelOutput(Monitor):
                         run.viol("C10", "cancel_output_older_than_published", "output %s = %r although %r was published for "
                                  "%s on a transition that reached a terminal context" % (name, out[name], ent.value, spec[1]),
                                  subject=name)
+
+
+        # the context of the task whose report brought the workflow to rest is part of what the output is rendered from,
+        # whatever status that task ended in (canceled, failed, waiting for a retry): the output may show what it saw or
+        # something newer, never something older
+        e = getattr(self, "execs", {}).get(getattr(self, "closing", None))
+        if e is not None and e.ectx is not None and not led.stopped and not run.ctl["reruns"]:
+            self.stats["closing_task_contexts_checked"] = self.stats.get("closing_task_contexts_checked", 0) + 1
+            pred = None
+            for name, spec, lang in run.model.output:
+                if spec[0] != "ref" or spec[1] not in e.ectx or name not in out:
+                    continue
+                ent = e.ectx[spec[1]]
+                if ent.racy or len(ent.chain) < 1 or out[name] == ent.value:
+                    continue
+                older = [init.get(spec[1])] + [led.wvals[w] for w in ent.chain[:-1] if w in led.wvals]
+                elsewhere = [val for w, val in led.wvals.items() if w[2] == spec[1] and w not in ent.chain]
+                if out[name] in older and out[name] not in elsewhere:
+                    run.viol("C10", "cancel_output_older_than_last_task_saw", "output %s = %r although task %s, whose report "
+                             "brought the canceled workflow to rest, ran with %s = %r" % (name, out[name], e.task, spec[1], ent.value),
+                             subject=name)
 
 
 def nontrivial(run, m):
